@@ -427,8 +427,13 @@ def flagPart (p : Part K) : Part K := { p with flagged := true }
     exists and a particle was flagged in this search, `reb_simulation_update_tree` removes the
     flagged particles.  The survivors are returned in array order; the code's order is the
     swap-with-last order of the tree sweep (C15), so the tie compares them as a set. -/
-def purgeFlagged (s : Sim (Part K)) : Sim (Part K) :=
-  if s.tree && s.ps.any (·.flagged) then { s with ps := s.ps.filter fun p => !p.flagged } else s
+def purgeFlagged (clampNActive : Bool) (s : Sim (Part K)) : Sim (Part K) :=
+  if s.tree && s.ps.any (·.flagged) then
+    let ps' := s.ps.filter fun p => !p.flagged
+    let n : Int := ps'.length
+    -- `clampNActive`: tree.c (9a64eba) `if (r->N_active > (int)r->N) r->N_active = r->N;`
+    { s with ps := ps', nActive := if clampNActive && s.nActive > n then n else s.nActive }
+  else s
 
 /-- `reb_collision_resolve_halt` (collision.c:760-765) without the status word -/
 def halt (t : K) (s : Sim (Part K)) (c : Coll (GB K)) : Sim (Part K) × Nat :=
